@@ -17,7 +17,8 @@ C06(r) == r.eok => /\ r.h_enc1 = r.h_enc2                       \* encoding twic
                    /\ r.dok => /\ r.h_dec1 = r.h_dec2            \* decoding twice: identical geometry in identical order
                                /\ r.trailok /\ r.h_dec1 = r.h_dec_trail   \* bytes after the stream do not matter
                                /\ r.remaining0 = 0 /\ r.remaining = r.trail   \* a successful decode consumes exactly the stream
-C09(r) == r.eok /\ r.dok => CountsAgree(r)
+\* what the encoder reports describes a stream that decodes, and to exactly those counts
+C09(r) == (r.eok => r.dok) /\ (r.eok /\ r.dok => CountsAgree(r))
 C10(r) == (r.dok /\ r.skip # <<>>) =>
             /\ r.skipok
             /\ \A j \in 1..Len(r.skip) : LET s == r.skip[j] IN
